@@ -35,23 +35,37 @@ class KernelControl:
         if hasattr(partitioned, '_verif_kernel_chooser'):
             partitioned._verif_kernel_chooser = None
 
+    _ids = itertools.count(1)
+
+    def key(self, obj):
+        # id() values are reused after garbage collection: tag the instance the harness created instead
+        k = getattr(obj, '_vf_key', None)
+        if k is None:
+            k = next(self._ids)
+            try:
+                obj._vf_key = k
+            except Exception:
+                k = ('id', id(obj))
+        return k
+
     def force(self, obj, seq):
-        self.plans[id(obj)] = list(seq)
+        self.plans[self.key(obj)] = list(seq)
 
     def __call__(self, obj, idx, selectable):
         with self._lock:
             chosen = int(idx)
             if selectable:
-                plan = self.plans.get(id(obj))
+                plan = self.plans.get(self.key(obj))
                 if plan:
                     chosen = int(plan.pop(0))
                 elif self.default is not None:
                     chosen = int(self.default)
-            self.log.append((id(obj), int(idx), chosen, bool(selectable)))
+            self.log.append((self.key(obj), int(idx), chosen, bool(selectable)))
             return chosen
 
     def choices_of(self, obj):
-        return [c for (i, _, c, _) in self.log if i == id(obj)]
+        k = self.key(obj)
+        return [c for (i, _, c, _) in self.log if i == k]
 
 
 CONTROL = KernelControl()
